@@ -18,6 +18,11 @@ pub fn rw_downgrade_to_upgradable_slow(_l: &parking_lot::RawRwLock) { panic!("co
 pub fn mx_lock_slow(_l: &parking_lot::RawMutex, _t: Option<Instant>) -> bool { panic!("contended lock in single-threaded harness") }
 pub fn mx_unlock_slow(_l: &parking_lot::RawMutex, _f: bool) { panic!("contended lock in single-threaded harness") }
 
+// Condvar: with no waiter the fast paths return before these are reached; blocking in a single-threaded harness never ends.
+pub fn cv_notify_one_slow(_c: &parking_lot::Condvar, _m: *mut parking_lot::RawMutex) -> bool { panic!("condvar waiter in single-threaded harness") }
+pub fn cv_notify_all_slow(_c: &parking_lot::Condvar, _m: *mut parking_lot::RawMutex) -> usize { panic!("condvar waiter in single-threaded harness") }
+pub fn cv_wait_until_internal(_c: &parking_lot::Condvar, _m: &parking_lot::RawMutex, _t: Option<Instant>) -> parking_lot::WaitTimeoutResult { panic!("blocking wait in single-threaded harness") }
+
 // ---- 3.5 small stubs ----
 /// Error *messages* are no part of any property; `format!` explodes in CBMC.
 pub fn fmt_stub(_a: std::fmt::Arguments<'_>) -> String { String::new() }
@@ -63,6 +68,9 @@ macro_rules! verif_env {
 		#[kani::stub(parking_lot::RawRwLock::downgrade_to_upgradable_slow, crate::verif_common::rw_downgrade_to_upgradable_slow)]
 		#[kani::stub(parking_lot::RawMutex::lock_slow, crate::verif_common::mx_lock_slow)]
 		#[kani::stub(parking_lot::RawMutex::unlock_slow, crate::verif_common::mx_unlock_slow)]
+		#[kani::stub(parking_lot::Condvar::notify_one_slow, crate::verif_common::cv_notify_one_slow)]
+		#[kani::stub(parking_lot::Condvar::notify_all_slow, crate::verif_common::cv_notify_all_slow)]
+		#[kani::stub(parking_lot::Condvar::wait_until_internal, crate::verif_common::cv_wait_until_internal)]
 		#[kani::stub(alloc::fmt::format, crate::verif_common::fmt_stub)]
 		#[kani::stub(std::hash::RandomState::new, crate::verif_common::fixed_random_state)]
 		$($item)*
@@ -84,6 +92,9 @@ macro_rules! verif_tbl {
 		#[kani::stub(parking_lot::RawRwLock::downgrade_to_upgradable_slow, crate::verif_common::rw_downgrade_to_upgradable_slow)]
 		#[kani::stub(parking_lot::RawMutex::lock_slow, crate::verif_common::mx_lock_slow)]
 		#[kani::stub(parking_lot::RawMutex::unlock_slow, crate::verif_common::mx_unlock_slow)]
+		#[kani::stub(parking_lot::Condvar::notify_one_slow, crate::verif_common::cv_notify_one_slow)]
+		#[kani::stub(parking_lot::Condvar::notify_all_slow, crate::verif_common::cv_notify_all_slow)]
+		#[kani::stub(parking_lot::Condvar::wait_until_internal, crate::verif_common::cv_wait_until_internal)]
 		#[kani::stub(alloc::fmt::format, crate::verif_common::fmt_stub)]
 		#[kani::stub(std::hash::RandomState::new, crate::verif_common::fixed_random_state)]
 		#[kani::stub(crate::file::TableFile::read_at, crate::file::verif_kani::stub_read_at)]
